@@ -75,6 +75,7 @@ type Orch struct {
 	Known    []KnownFinding
 	KnownHit map[string]int
 	Extra    map[string]any
+	slow     []string
 	mu       sync.Mutex
 }
 
@@ -299,6 +300,17 @@ func (o *Orch) runShard(i, n int) {
 			json.Unmarshal(b, &st)
 		}
 		o.mergeStats(&st)
+		if b, rerr := os.ReadFile(errf); rerr == nil {
+			for _, l := range strings.Split(string(b), "\n") {
+				if strings.HasPrefix(l, "VERIF-SLOW ") {
+					o.mu.Lock()
+					if len(o.slow) < 10 {
+						o.slow = append(o.slow, l)
+					}
+					o.mu.Unlock()
+				}
+			}
+		}
 		if err == nil && st.Finished {
 			return
 		}
@@ -461,6 +473,9 @@ func (o *Orch) writeEvidence(violations int, wall float64, inconclusive string) 
 	}
 	for k, v := range o.Extra {
 		cov[k] = v
+	}
+	if len(o.slow) > 0 {
+		cov["slow_cases"] = o.slow
 	}
 	ev := map[string]any{
 		"property_id": o.P.ID,
